@@ -39,7 +39,7 @@ ASSUMPTIONS = ['leaf masks come from glue itself (fresh objects): this check dec
 PROBES = ['operand_reread_after_combine', 'multior_of_existing', 'edit_mode_and', 'edit_mode_or', 'edit_mode_xor', 'edit_mode_andnot',
           'edit_mode_new', 'two_edit_subsets', 'same_state_object_applied_again', 'incompatible_expected', 'view_compare', 'nan_inf_data', 'depth_ge_3', 'copy_compared']
 
-KINDS = ['ineq', 'range', 'mrange', 'roi', 'mask', 'slice', 'elem', 'catroi', 'cat', 'empty', 'ineq2']
+KINDS = ['ineq', 'range', 'mrange', 'roi', 'mask', 'slice', 'elem', 'catroi', 'cat', 'empty', 'ineq2', 'roind', 'roi3d']
 WEIGHTS = {'new_group': 4, 'combine': 5, 'invert': 2, 'multior': 2, 'copy': 1.5, 'apply': 5, 'set_edit': 1.5, 'set_state': 1,
            'read': 8, 'read_sub': 3, 'check': 1.5, 'new': 0.7, 'append': 0.7, 'add_derived': 0.5}
 VIEWS = [None, None, [[0, 3, 1]], [[1, 4, 2]], [[0, 2, 1], [0, 2, 1]], [[0, 5, 2], [1, 2, 1], [0, 3, 2]]]
@@ -211,9 +211,12 @@ class AlgebraWorld(W.World):
         elif k == 'ineq2':
             cids = self.cids_of(d, True)
             out[2], out[4] = r[2] % len(cids), r[4] % len(cids)
-        elif k == 'roi':
+        elif k in ('roi', 'roind'):
             cids = self.cids_of(d, True)
             out[2], out[3] = r[2] % len(cids), r[3] % len(cids)
+        elif k == 'roi3d':
+            cids = self.cids_of(d, True)
+            out[2], out[3], out[4] = r[2] % len(cids), r[3] % len(cids), r[4] % len(cids)
         return out
 
     def build_leaf(self, r):
